@@ -45,7 +45,7 @@ impl<const P: i64> PrimeResidueClass<P> {
 impl<const P: i64> From<i64> for PrimeResidueClass<P> {
     fn from(n: i64) -> Self {
         PrimeResidueClass {
-            value: if n >= 0 { n % P } else { n % P + P }
+            value: n.rem_euclid(P)
         }
     }
 }
@@ -54,7 +54,7 @@ impl<const P: i64> From<i64> for PrimeResidueClass<P> {
 impl<const P: i64> From<i32> for PrimeResidueClass<P> {
     fn from(n: i32) -> Self {
         PrimeResidueClass {
-            value: if n >= 0 { (n as i64) % P } else { (n as i64) % P + P }
+            value: (n as i64).rem_euclid(P)
         }
     }
 }
